@@ -43,6 +43,17 @@ def canary_ownclass(traces):
                 return c, 'every recipient refused, some for good and some for now, reported as one failure of the first class'
 
 
+def _model_validations(extra_cov):
+    """the HTTP relay's single-client executions against HttpClient, the pipe relay's against PipeRelay (drift is reported)"""
+    from .. import httpd, piped
+    h1, h2 = httpd.post_hook(extra_cov), piped.post_hook(extra_cov)
+
+    def post(oc, traces, summaries):
+        h1(oc, traces, summaries)
+        h2(oc, traces, summaries)
+    return post
+
+
 def run(tier):
     import json
     import os
@@ -95,7 +106,7 @@ CHECK_DEADLOCK FALSE
                 # the stalls of C14 (every stage of the SMTP / LMTP conversation, pipe children that outlive their time limit with
                 # 1-3 recipients, an HTTP peer that never answers) judged by the C11 clauses: what was not delivered in time is not delivered
                 {'driver': 'c14r', 'module': 'Trace_Relay', 'cfg': 'Trace_Relay.cfg'}],
-        extra_cov=extra_cov, post=__import__('harness.httpd', fromlist=['post_hook']).post_hook(extra_cov),
+        extra_cov=extra_cov, post=_model_validations(extra_cov),
         level='model_checking',
         rule='downstream scripts for the real StaticSmtpRelay and StaticLmtpRelay: a deviating reply class {4xx, 5xx, '
              'malformed, disconnect} at every single stage (banner, EHLO incl. 500->HELO fallback, MAIL, each RCPT, DATA, '
